@@ -10,9 +10,9 @@ from zcv import refload
 
 KEYTYPES = ["basic-key", "identifier", "ipaddr-or-hostname"]
 NAME_POOL = {
-    "basic-key": ["alpha", "Beta-2", "gamma.x", "delta_y", "eps", "Zeta", "eta-a-b", "class", "Pass"],
-    "identifier": ["alpha", "Beta", "gamma_x", "delta_y", "eps", "zeta", "import", "None"],
-    "ipaddr-or-hostname": ["alpha", "beta-2", "gamma.x", "delta_y", "eps", "10.0.0.1", "eta-a-b", "lambda"],
+    "basic-key": ["alpha", "Beta-2", "gamma.x", "delta_y", "eps", "Zeta", "eta-a-b", "class", "Pass", "t1", "T2"],
+    "identifier": ["alpha", "Beta", "gamma_x", "delta_y", "eps", "zeta", "import", "None", "t1", "t2"],
+    "ipaddr-or-hostname": ["alpha", "beta-2", "gamma.x", "delta_y", "eps", "10.0.0.1", "eta-a-b", "lambda", "t1", "t2"],
 }
 PLAIN_NAMES = ("alpha", "eps", "zeta")           # fixed points of every key type
 FREE_KEYS = {
@@ -25,11 +25,11 @@ BAD_KEYS = {
     "identifier": ["1x", "a-b", "a.b", "+", "*"],
     "ipaddr-or-hostname": ["1x", "300.1.1.1", "a/b", "x!", "+", "*"],
 }
-SECTION_NAMES = ["n1", "n2", "N3", "alpha", "Beta", "Stra\u00dfe", "\u039f\u0394\u039f\u03a3", "/Dir/", "a>b", "Z\u00fcrich", "\u00c5rhus"]
+SECTION_NAMES = ["n1", "n2", "N3", "alpha", "Beta", "Stra\u00dfe", "\u039f\u0394\u039f\u03a3", "/Dir/", "a>b", "Z\u00fcrich", "\u00c5rhus", "t1", "T2", "eps"]
 
 GOOD = {
     "string": ["v", "two words", "x=1", "(p)", "<q>", "# not a comment", "é", "col1\tcol2", "a \t b",
-               "C:\\spool\\", "\\"],
+               "C:\\spool\\", "\\", "alpha", "t1", "eps v", "n1", "yes", "12"],
     "integer": ["12", "-3", "0", "+7", "1_000", "9007199254740993"],
     "boolean": ["yes", "No", "TRUE", "off", "On", "false"],
     "float": ["1.5", "1e3", "-0.25", "7"],
@@ -280,6 +280,8 @@ def gen_items(rng, kt, names, attrs, avail_types, n, handlers, hcount, value_dts
         if handlers and rng.random() < 0.5:
             hcount[0] += 1
             it["handler"] = mixcase(rng, "h%d" % rng.randint(1, max(2, hcount[0])))
+            if rng.random() < 0.15:
+                it["handler"] = mixcase(rng, rng.choice(["alpha", "eps", "t1", "h-top"]))    # a name that is also something else
         if kind == "wild":
             haswild = True
             it["kind"] = rng.choice(["key", "multikey"])
